@@ -200,11 +200,26 @@ fn judge_float<T: LFloat, const FMT: u128, const NOSEP: u128>(cx: &mut Cx, d: &D
         return None;
     }
     // ---- C11
+    // Inputs that begin like a configured special string whose first letter is a digit of the radix are read as a
+    // number by one entry point and as the special value by another (known finding, see C08): keyed on their own class
+    let amb = {
+        let body: &[u8] = if matches!(input.first(), Some(b'+') | Some(b'-')) { &input[1..] } else { input };
+        body.first().map_or(false, |&c| {
+            digit_value(c) < d.radix as u32 && [&fo.p.nan, &fo.p.inf, &fo.p.infinity].into_iter().flatten().any(|s| s.first().map_or(false, |&f| f.to_ascii_lowercase() == c.to_ascii_lowercase()))
+        })
+    };
+    let c11 = |base: &str| -> String {
+        if amb {
+            format!("{base}:special-string-letters-are-digits-of-the-radix")
+        } else {
+            base.to_string()
+        }
+    };
     match (&rc, &rp) {
         (R::Ok(v, _), R::Ok(w, n)) if *n == input.len() && same_float(*v, *w) => {},
-        (R::Ok(..), _) => viol(cx, "C11", "complete-ok-partial-differs", d, &fo.name, ty, input, format!("complete={} partial={}", fmt_rf(&rc), fmt_rf(&rp))),
+        (R::Ok(..), _) => viol(cx, "C11", &c11("complete-ok-partial-differs"), d, &fo.name, ty, input, format!("complete={} partial={}", fmt_rf(&rc), fmt_rf(&rp))),
         (R::Err(_), R::Ok(_, n)) if *n == input.len() => {
-            viol(cx, "C11", "partial-full-complete-err", d, &fo.name, ty, input, format!("complete={} partial={}", fmt_rf(&rc), fmt_rf(&rp)))
+            viol(cx, "C11", &c11("partial-full-complete-err"), d, &fo.name, ty, input, format!("complete={} partial={}", fmt_rf(&rc), fmt_rf(&rp)))
         },
         _ => {},
     }
@@ -213,7 +228,7 @@ fn judge_float<T: LFloat, const FMT: u128, const NOSEP: u128>(cx: &mut Cx, d: &D
             let pre = parse_complete_opt::<T, FMT>(&mut cx.arena, &input[..*n], place, &fo.lex);
             let ok = matches!(&pre, R::Ok(v, _) if same_float(*v, *w));
             if !ok {
-                viol(cx, "C11", "prefix-not-complete", d, &fo.name, ty, input, format!("partial={} complete(prefix)={}", fmt_rf(&rp), fmt_rf(&pre)));
+                viol(cx, "C11", &c11("prefix-not-complete"), d, &fo.name, ty, input, format!("partial={} complete(prefix)={}", fmt_rf(&rp), fmt_rf(&pre)));
             }
         }
     }
